@@ -60,6 +60,16 @@ def run(ctx: Ctx):
     model = ctx.model
     from .common_node import names_resolve
     names_resolve(ctx, "C14-RN")
+    from . import c18 as _c18b
+    ctx.include(_c18b.run, {"C18-R4"}, "C14-R17",
+                "a connection object (two threads) that was constructed for a dial is closed on "
+                "every path on which the dial does not register it", floor=1,
+                constructs=lambda c: "PeerConnection@" in c)
+    from . import c18 as _c18
+    ctx.include(_c18.run, {"C18-R3"}, "C14-R18",
+                "the writer counts every message it takes as done: a CLOSING connection is closed "
+                "after its last message instead of holding its socket, record and threads", floor=1,
+                constructs=lambda c: c.startswith("work_write_queue:task_done"))
     from .common_node import no_lock_reacquired
     no_lock_reacquired(ctx, "C14-R16")
     from .recvmsg import received_messages_reach_dispatch
